@@ -1,46 +1,94 @@
 #!/usr/bin/env python3
-"""Must-fail corpus: applies each textual mutant to /repo, runs govc on the
-function named for it, checks that at least one obligation is NOT discharged,
-and restores the file.  usage: tools/mutants.py [prop|id ...]"""
-import json, subprocess, sys, os, shutil
+"""Must-fail corpus: applies each textual mutant to a scratch copy of the
+repository under test (never to the repository itself), runs govc on the
+function named for it, checks that at least one obligation is NOT discharged.
+A mutant that does not compile is INVALID (counted as a failure of the corpus,
+not as a detection).
+
+usage: tools/mutants.py [--json out.json] [--jobs N] [prop|id ...]
+The scratch copies live under $TMPDIR (default /tmp) and are removed at exit."""
+import json, subprocess, sys, os, shutil, tempfile, threading, queue
+
 V = os.path.dirname(os.path.dirname(os.path.abspath(__file__)))
+REPO = os.environ.get('VERIF_REPO', '/repo')
 muts = json.load(open(os.path.join(V, 'selftest/mutants.json')))
 args = sys.argv[1:]
 jsonout = None
-if args and args[0] == '--json':
-    jsonout = args[1]; args = args[2:]
+jobs = 3
+while args and args[0].startswith('--'):
+    if args[0] == '--json':
+        jsonout = args[1]; args = args[2:]
+    elif args[0] == '--jobs':
+        jobs = int(args[1]); args = args[2:]
+    else:
+        break
 sel = args
-bad = 0
-results = []
-for m in muts:
-    if sel and m['prop'] not in sel and m['id'] not in sel:
-        continue
-    path = os.path.join('/repo', m['file'])
+todo = [m for m in muts if not sel or m['prop'] in sel or m['id'] in sel]
+jobs = max(1, min(jobs, len(todo)))
+
+def make_copy():
+    """A copy of the working tree of REPO (tracked and untracked files, no .git)."""
+    d = tempfile.mkdtemp(prefix='govc-mut-')
+    r = subprocess.run(['rsync', '-a', '--exclude', '.git', REPO + '/', d + '/'], capture_output=True, text=True)
+    if r.returncode != 0:
+        raise SystemExit('rsync failed: ' + r.stderr)
+    return d
+
+def run_one(m, repo):
+    path = os.path.join(repo, m['file'])
     src = open(path).read()
     if src.count(m['old']) != 1:
-        print("%-32s PATTERN matches %d times (corpus needs updating)" % (m['id'], src.count(m['old'])))
-        bad += 1
-        results.append({"id": m['id'], "result": "stale"})
-        continue
-    shutil.copy(path, path + '.mutbak')
+        return {"id": m['id'], "result": "stale", "line": "%-32s PATTERN matches %d times (corpus needs updating)" % (m['id'], src.count(m['old']))}
     try:
         open(path, 'w').write(src.replace(m['old'], m['new']))
-        r = subprocess.run([os.path.join(V, 'bin/govc'), 'func', '-t', '25', m['pkg'], m['func']], capture_output=True, text=True)
+        env = dict(os.environ, VERIF_REPO=repo, GOVC_WORKERS=str(max(2, (os.cpu_count() or 4) // (2 * jobs))))
+        r = subprocess.run([os.path.join(V, 'bin/govc'), 'func', '-t', '25', m['pkg'], m['func']], capture_output=True, text=True, env=env)
         out = r.stdout + r.stderr
-        failing = [l.split()[3] if l.startswith('failed') and 'structural' not in l else (l.split()[2] if not l.startswith('translate') else 'translation') for l in out.splitlines() if l.startswith(('failed', 'unknown  ', 'unknown ', 'translate:')) and 'unknown call' not in l]
-        detected = r.returncode != 0 and ('not discharged' in out or 'translate:' in out)
         if 'load error' in out or 'errors in package' in out:
-            print("%-32s INVALID  the mutant does not compile: %s" % (m['id'], out.strip().splitlines()[-1][:100]))
-            bad += 1
-            results.append({"id": m['id'], "result": "invalid"})
-            continue
-        print("%-32s %s %s" % (m['id'], 'DETECTED' if detected else 'MISSED  ', ' '.join(failing[:2])[:110]))
-        results.append({"id": m['id'], "function": m['func'], "result": "detected" if detected else "missed", "failed_obligations": failing[:3], "note": m.get('note', '')})
-        if not detected:
-            bad += 1
+            return {"id": m['id'], "result": "invalid", "line": "%-32s INVALID  the mutant does not compile: %s" % (m['id'], out.strip().splitlines()[-1][:100])}
+        failing = [l.split()[3] if l.startswith('failed') and 'structural' not in l else (l.split()[2] if not l.startswith('translate') else 'translation')
+                   for l in out.splitlines() if l.startswith(('failed', 'unknown  ', 'unknown ', 'translate:')) and 'unknown call' not in l]
+        detected = r.returncode != 0 and ('not discharged' in out or 'translate:' in out)
+        return {"id": m['id'], "function": m['func'], "result": "detected" if detected else "missed", "failed_obligations": failing[:3], "note": m.get('note', ''),
+                "line": "%-32s %s %s" % (m['id'], 'DETECTED' if detected else 'MISSED  ', ' '.join(failing[:2])[:110])}
     finally:
-        shutil.move(path + '.mutbak', path)
-print("mutants missed or stale:", bad)
+        open(path, 'w').write(src)
+
+q = queue.Queue()
+for i, m in enumerate(todo):
+    q.put((i, m))
+results = [None] * len(todo)
+copies = []
+lock = threading.Lock()
+
+def worker():
+    repo = make_copy()
+    with lock:
+        copies.append(repo)
+    while True:
+        try:
+            i, m = q.get_nowait()
+        except queue.Empty:
+            return
+        res = run_one(m, repo)
+        results[i] = res
+        with lock:
+            print(res['line'], flush=True)
+
+threads = [threading.Thread(target=worker) for _ in range(jobs)]
+try:
+    for t in threads:
+        t.start()
+    for t in threads:
+        t.join()
+finally:
+    for c in copies:
+        shutil.rmtree(c, ignore_errors=True)
+bad = sum(1 for r in results if r is None or r['result'] != 'detected')
+print("mutants missed, stale or invalid:", bad)
 if jsonout:
-    json.dump({"run": len(results), "detected": sum(1 for r in results if r['result'] == 'detected'), "results": results}, open(jsonout, 'w'), indent=1)
+    for r in results:
+        if r:
+            r.pop('line', None)
+    json.dump({"run": len(results), "detected": sum(1 for r in results if r and r['result'] == 'detected'), "results": results}, open(jsonout, 'w'), indent=1)
 sys.exit(1 if bad else 0)
